@@ -81,6 +81,11 @@ type c14Built struct {
 	ref   map[uint][]c14RefGroup          // group data as the code under test sees it
 	nilGr map[uint]bool                   // generation present with a nil group list
 	has   map[uint]bool                   // generation present and not removed
+
+	// loader path only
+	direct    *PhantomIPSelector // the same configuration built object by object
+	extraGens []uint             // generations the loaded selector holds although the file does not declare them
+	misplaced []uint             // declared generations the loaded selector does not hold
 }
 
 func c14PBGroup(g c14Group) *pb.PhantomSubnets {
@@ -128,6 +133,22 @@ func c14Toml(c c14Config) string {
 	return sb.String()
 }
 
+// c14Direct builds the selector object by object, without the loader.
+func c14Direct(c c14Config) *PhantomIPSelector {
+	sel := &PhantomIPSelector{Networks: map[uint]*SubnetConfig{}}
+	for _, g := range c.Gens {
+		sc := &SubnetConfig{}
+		if !g.NoGroups {
+			sc.WeightedSubnets = []*pb.PhantomSubnets{}
+			for _, gr := range g.Groups {
+				sc.WeightedSubnets = append(sc.WeightedSubnets, c14PBGroup(gr))
+			}
+		}
+		sel.Networks[g.Gen] = sc
+	}
+	return sel
+}
+
 // c14Build constructs the selector (directly or through a TOML file) and extracts, from the very
 // objects handed to the code under test, the plain data the oracles work on.
 func c14Build(env *c14Env, c c14Config) (*c14Built, error) {
@@ -149,34 +170,34 @@ func c14Build(env *c14Env, c c14Config) (*c14Built, error) {
 		if err != nil {
 			return nil, fmt.Errorf("loading generated TOML: %v\n%s", err, c14Toml(c))
 		}
-		for _, g := range c.Gens {
-			if _, ok := sel.Networks[g.Gen]; !ok {
-				return nil, fmt.Errorf("generation %d missing after TOML load", g.Gen)
-			}
-		}
-		if len(sel.Networks) != len(c.Gens) {
-			return nil, fmt.Errorf("TOML load produced %d generations, wrote %d", len(sel.Networks), len(c.Gens))
-		}
+		// A generation that the loader put somewhere else than where the file declares it is not a
+		// harness problem but a finding: the selector is used as loaded, the oracles work from what
+		// the file says (a twin built directly from the case stands in for the missing objects), and
+		// every generation the loader invented is probed (c14CheckCase).
 		b.sel = sel
-	} else {
-		b.sel = &PhantomIPSelector{Networks: map[uint]*SubnetConfig{}}
-		for _, g := range c.Gens {
-			sc := &SubnetConfig{}
-			if !g.NoGroups {
-				sc.WeightedSubnets = []*pb.PhantomSubnets{}
-				for _, gr := range g.Groups {
-					sc.WeightedSubnets = append(sc.WeightedSubnets, c14PBGroup(gr))
-				}
+		b.direct = c14Direct(c)
+		for k := range sel.Networks {
+			if !seen[k] {
+				b.extraGens = append(b.extraGens, k)
 			}
-			b.sel.Networks[g.Gen] = sc
 		}
+		sort.Slice(b.extraGens, func(i, j int) bool { return b.extraGens[i] < b.extraGens[j] })
+	} else {
+		b.sel = c14Direct(c)
 	}
 	for _, g := range c.Gens {
 		if g.Removed {
 			b.sel.RemoveGeneration(g.Gen)
+			if b.direct != nil {
+				b.direct.RemoveGeneration(g.Gen)
+			}
 			continue
 		}
 		sc := b.sel.Networks[g.Gen]
+		if sc == nil && b.direct != nil {
+			sc = b.direct.Networks[g.Gen]
+			b.misplaced = append(b.misplaced, g.Gen)
+		}
 		if sc == nil {
 			return nil, fmt.Errorf("generation %d has a nil config after construction", g.Gen)
 		}
@@ -430,6 +451,10 @@ func c14Judge(b *c14Built, q c14Query, o c14Out) c14Verdict {
 				randOK = randOK || ro
 			}
 		}
+		if !in && !b.has[q.Gen] {
+			v.Key, v.Msg = "select:unconfigured-generation-served", fmt.Sprintf("generation %d is not configured (or was removed), yet the selection returned %s instead of being refused", q.Gen, c14FmtIP(o.IP))
+			return v
+		}
 		if !in {
 			if lz() {
 				v.Key, v.Msg = "addr-length:leading-zero-bytes-dropped", fmt.Sprintf("selected address %x is a member of a configured subnet with its leading zero bytes dropped", []byte(o.IP))
@@ -542,12 +567,33 @@ func c14Eval(t vh.Fataler, rec *vh.Rec, b *c14Built, c c14Case, cfgDigest [8]byt
 		rec.Violation(t, v.Key, one, "%s; query=%s config=%s", v.Msg, c14QStr(q), c14CfgStr(c.Cfg, q.Gen))
 		return o, v
 	}
+	// the configuration counts, not the way it was installed: a generation declared in the file must
+	// not be refused where the same configuration built object by object yields an address. (Only
+	// asserted when every block lists at least one subnet, so that nothing hinges on how the loader
+	// represents an absent or empty list.)
+	if b.direct != nil && b.has[q.Gen] && o.IsErr && q.Entry == c14EntrySelect && c14AllBlocksHaveSubnets(b.ref[q.Gen]) {
+		if od := c14Call(&c14Built{sel: b.direct}, q); od.Panic == "" && !od.IsErr && !od.Nil {
+			v.Key = "select:configured-generation-refused"
+			rec.Violation(t, v.Key, one, "generation %d is declared in the loaded file but the selection is refused (%s); the same configuration installed directly selects %v; the loaded selector holds the undeclared generations %v; query=%s config=%s",
+				q.Gen, o.Err, od, b.extraGens, c14QStr(q), c14CfgStr(c.Cfg, q.Gen))
+			return o, v
+		}
+	}
 	o2 := c14Call(b, q)
 	if !o.same(o2) {
 		v.Key = "impure:repeat"
 		rec.Violation(t, v.Key, one, "the same selection gave %v and then %v; query=%s config=%s", o, o2, c14QStr(q), c14CfgStr(c.Cfg, q.Gen))
 	}
 	return o, v
+}
+
+func c14AllBlocksHaveSubnets(groups []c14RefGroup) bool {
+	for _, g := range groups {
+		if len(g.Subnets) == 0 {
+			return false
+		}
+	}
+	return len(groups) > 0
 }
 
 func c14QStr(q c14Query) string {
